@@ -87,6 +87,12 @@ pub fn classify(ctx: &mut Ctx, m: &Movie) -> bool {
         if n > 64 {
             ctx.count("track:n>64");
         }
+        if t.elst.is_some() {
+            ctx.count("track:edit-list");
+        }
+    }
+    if m.mehd.is_some() && m.frags.is_empty() {
+        ctx.count("movie:mvex-in-a-file-without-fragments");
     }
     if m.tracks.len() > 1 {
         ctx.count("movie:multi-track");
